@@ -39,3 +39,19 @@ Theorem C13_coroutines_refuted :
     = Some "X SilentContractError tag=- msg=<> params={} origin=- cause=- ctx=-".
 Proof. split; vm_compute; reflexivity. Qed.
 Print Assumptions C13_coroutines_refuted.
+
+(* C13-F3: "whenever no contracted body is executing the standard streams are in their original state" -- REFUTED for two coroutines
+   with separate has() patchers that overlap without nesting (A in, B in, A out, B out): B saved A's fake streams as "the
+   originals" and puts them back after A has restored the real ones. Nested (LIFO) and sequential schedules come out right. *)
+Definition ta : sfun := {| sf_name := "ta"; sf_kind := KAsync; sf_sig := csig; sf_stack := [CHas 1 [] VNone None]; sf_body := [BAwait; BReturn (EConst (VInt 1))] |}.
+Definition tb : sfun := {| sf_name := "tb"; sf_kind := KAsync; sf_sig := csig; sf_stack := [CHas 2 [] VNone None]; sf_body := [BAwait; BReturn (EConst (VInt 2))] |}.
+Definition quiescent_after (driver : list action) : option bool :=
+  match run_scenario {| sc_funs := [ta; tb]; sc_dispatch := []; sc_driver := driver |} with
+  | Done (inl l) _ => Some (match globals (snd (last l (ORet VNone, st0))) with (true, Real, Real, Real) => true | _ => false end)
+  | _ => None end.
+Theorem C13_overlapping_patchers_refuted :
+  quiescent_after [ACoNew 0 "ta" [] []; ACoNew 1 "tb" [] []; ANext 0; ANext 1; ANext 0; ANext 1] = Some false /\
+  quiescent_after [ACoNew 0 "ta" [] []; ACoNew 1 "tb" [] []; ANext 0; ANext 1; ANext 1; ANext 0] = Some true /\
+  quiescent_after [ACoNew 0 "ta" [] []; ACoNew 1 "tb" [] []; ANext 0; ANext 0; ANext 1; ANext 1] = Some true.
+Proof. repeat split; vm_compute; reflexivity. Qed.
+Print Assumptions C13_overlapping_patchers_refuted.
